@@ -6,7 +6,7 @@ Local Open Scope N_scope.
 Theorem C01_on_dispatch : forall (O : oracle) r sel len rest,
   r_stack r = VInt sel :: VInt len :: rest -> (0 <= sel)%Z -> (0 <= len)%Z ->
   (-32768 <= sel <= 32767)%Z -> (-32768 <= len <= 32767)%Z ->
-  do_on r = (set_pc (set_stack r rest)
+  do_on r = (set_pc (set_stack_len r rest (r_slen r - 1 - 1))
                (if ((sel =? 0) || (len <? sel))%Z then r_pc r + Z.to_N len else r_pc r + Z.to_N (sel - 1)), Ok tt).
 Proof.
   intros O r sel len rest Hs H1 H2 H3 H4.
